@@ -327,6 +327,75 @@ def rt_ctrl(ctx, p):
         check_roundtrip(ctx, b2, {'family': 'round trip: control programs'})
 
 
+DEEP_KINDS = ('IF', 'LOOP', 'IFELSE1', 'IFELSE2', 'TRY1', 'TRY2', 'DEF+IF', 'cycle')
+
+
+def rt_deep(ctx, case):
+    """one block kind nested d deep (DEF can only be outermost; 'cycle' rotates through the kinds) around one instruction"""
+    kind, d = case
+    base = ('IF', 'LOOP', 'IFELSE1', 'IFELSE2', 'TRY1', 'TRY2')
+    if kind == 'DEF+IF':
+        kinds = ('DEF',) + ('IF',) * (d - 1)
+    elif kind == 'cycle':
+        kinds = tuple(base[i % len(base)] for i in range(d))
+    else:
+        kinds = (kind,) * d
+    b = wrap(kinds, b'\x01')
+    ctx.state((kind, d))
+    check_roundtrip(ctx, b'\x00' + b + b'\x01', {'family': 'round trip: deep nesting', 'kind': kind})
+
+
+MACRO_BODIES = {'top': '%s', 'IF': 'true if { %s }', 'ELSE': 'true if { } else { %s }', 'LOOP': 'false loop { %s }',
+                'TRY': 'try { %s } except { }', 'EXCEPT': 'try { } except { %s }', 'DEF': 'def 0 { %s }',
+                'DEF>IF': 'def 0 { true if { %s } }', 'DEF>TRY': 'def 0 { try { %s } except { } }', 'hoisted condition': 'if ( %s ) { true }'}
+MACRO_TEXTS = {'plain': 'true', 'push': 'push x0102', 'IF': 'true if { false }', 'LOOP': 'false loop { true }',
+               'TRY': 'try { true } except { false }', 'DEF': 'def 1 { true }', 'IF>DEF': 'true if { def 1 { true } }',
+               'comptime': 'push ~ { true }', 'variable': '@= v [ x01 ]', 'two statements': 'true def 1 { true }',
+               'call': 'call d1', 'inner macro': '!n [ ]'}
+
+
+def def_directly_in_def(b):
+    try:
+        ref = refasm.disassemble(b)
+    except refasm.DisError:
+        return False
+
+    def walk(l):
+        for name, operand, subs in l:
+            if name == 'DEF' and any(n2 == 'DEF' for sub in subs for n2, _, _ in sub):
+                return True
+            if any(walk(sub) for sub in subs):
+                return True
+        return False
+    return walk(ref)
+
+
+def rt_macro(ctx, case):
+    """compiler output for sources that put a statement into a body through a macro (and the same statement written
+    directly): whatever the compiler accepts must survive decompile -> compile"""
+    bk, mk = case
+    for via in ('macro', 'direct'):
+        text = MACRO_TEXTS[mk]
+        if via == 'macro':
+            src = '!= n [ ] { def 1 { true } } != m [ ] { %s } ' % text + MACRO_BODIES[bk] % '!m [ ]'
+        else:
+            src = '!= n [ ] { def 1 { true } } ' + MACRO_BODIES[bk] % text
+        try:
+            b = P_.compile_script(src)
+        except BaseException as e:
+            if isinstance(e, (KeyboardInterrupt, SystemExit, MemoryError)):
+                raise
+            ctx.count('source rejected by the compiler (no round-trip claim)')
+            continue
+        ctx.state((bk, mk, via))
+        sig = {'family': 'round trip: statements placed by macros', 'body': bk, 'statement': mk, 'via': via}
+        if def_directly_in_def(b):
+            # one defect, however the macro call is spelled: the compiler's "no DEF within a DEF body" rule looks at written symbols only
+            sig = {'family': 'round trip: statements placed by macros', 'shape': 'DEF placed directly in a DEF body by a macro call'}
+        check_roundtrip(ctx, b, sig)
+    ctx.evaluations += 1
+
+
 def rt_vector(ctx, path):
     b = bytes.fromhex(open(path).read().strip())
     ctx.state((path,))
@@ -405,6 +474,10 @@ def blocks(tier, seed):
         Block('roundtrip_nop_codes', list(range(92, 256)), rt_nop, 'every NOP code x every count byte', nshards=32),
         Block('roundtrip_control_programs', lambda s, n: spaces.progs_upto(3 if q else 4, 'full', s, n), rt_ctrl,
               'every control program of the C11 space', nshards=64),
+        Block('roundtrip_deep_nesting', [(k, d) for k in DEEP_KINDS for d in range(1, (130 if q else 200) + 1)], rt_deep,
+              'each block kind (and a rotation of all kinds, and DEF around IFs) nested 1..%d deep around one instruction' % (130 if q else 200), nshards=32),
+        Block('roundtrip_statements_placed_by_macros', [(b, m) for b in MACRO_BODIES for m in MACRO_TEXTS], rt_macro,
+              '%d body kinds x %d statements, written directly and through a macro call' % (len(MACRO_BODIES), len(MACRO_TEXTS)), nshards=16),
         Block('roundtrip_vectors', vectors, rt_vector, 'tests/vectors/*.hex', nshards=16),
         Block('roundtrip_builder_outputs', list(range(ncorp)), rt_builder, 'every lock / witness builder output over a small alphabet', nshards=32),
     ]
